@@ -308,6 +308,10 @@ func run(param json.RawMessage, ctx *explore.Ctx, viols *[]xrun.Viol) string {
 func main() {
 	flag.Parse()
 	par.ServeIfWorker(map[string]par.Handler{"x": xrun.Handler(run)})
+	if v, ok := ev.ReplayRequested(); ok {
+		xrun.Replay(v, run)
+		return
+	}
 	r := ev.Start("C13")
 	defer r.RecoverMain()
 	defer world.Cleanup()
